@@ -1,4 +1,81 @@
-import ZckModel.Reader
+/-
+C14 — Random access returns each chunk's exact data regardless of request history.
+What is proved about the model of `zck_get_chunk_data` / `zck_get_chunk_comp_data`: every request
+re-establishes the reader position state from scratch, so its outcome does not depend on any of
+the fields previous requests (or reads) leave behind — the offset, the pending stored bytes, the
+position inside the previous chunk, the current chunk, the end-of-data marker, the decoded
+buffer, the chunk checksum context.  (Equality of the returned bytes with the chunk's slice of
+the content is evaluated against the reference decoder on the implementation, `c14_ok`.)
+-/
+import ZckModel.ReaderLemmas
 import ZckModel.Pred.Read
+
 namespace Zck.C14
+open Zck Zck.Format Zck.Reader
+
+/-- forget everything a previous request may have left in the reader position state -/
+def forget (c : Ctx) : Ctx :=
+  { c with pos := 0, started := true, data := [], dataLoc := 0, dataIdx := none, dataEof := false,
+           dc := [], chunkHash := none }
+
+/-- the dictionary is loaded, or the file has none -/
+def DictReady (c : Ctx) : Prop :=
+  ∀ d, c.hdr.chunks.head? = some d → ¬ (d.len > 0 ∧ c.dict.isNone = true)
+
+/-- **C14 (data requests)**: the result AND the context after a chunk-data request are the same
+whatever position state the context was in before: stale `data_eof`, `data_loc`, `data_idx`,
+buffers or checksum contexts cannot influence it. -/
+theorem getChunkData_history_free (H : HashFn) (D : Decomp) (f : Bytes) (c : Ctx) (k n : Nat)
+    (hd : DictReady c) :
+    getChunkData H D f c k n = 
+      (match getChunkData H D f (forget c) k n with
+       | (r, c') => (r, if c.err ∨ (chunkAt c k).isNone ∨ c.hdr.chunks.head?.isNone ∨ ((chunkAt c k).map (·.len)) = some 0
+                        then c else c')) := by
+  unfold getChunkData
+  by_cases he : c.err = true
+  · simp [he, forget]
+  · have hf : (forget c).err = c.err := rfl
+    simp only [he, hf]
+    cases hk : chunkAt c k with
+    | none =>
+      have : chunkAt (forget c) k = none := hk
+      simp [this, hk]
+    | some ch =>
+      have hk' : chunkAt (forget c) k = some ch := hk
+      cases hh : c.hdr.chunks.head? with
+      | none =>
+        have : (forget c).hdr.chunks.head? = none := hh
+        simp [hk', this, hh]
+      | some d =>
+        have hh' : (forget c).hdr.chunks.head? = some d := hh
+        have hnd := hd d hh
+        simp only [hk', hh', hh, hk]
+        by_cases hl : ch.len = 0
+        · simp [hl]
+        · have hnd' : ¬ (d.len > 0 ∧ (forget c).dict.isNone = true) := hnd
+          simp only [hl, hnd, hnd', ↓reduceIte, Bool.false_eq_true, false_or, Option.isNone_some,
+            Option.map_some, Option.some.injEq, or_self]
+          rfl
+
+/-- **C14 (stored-data requests)** do not depend on the position state either -/
+theorem getChunkCompData_history_free (f : Bytes) (c : Ctx) (k n : Nat) :
+    (getChunkCompData f c k n).1 = (getChunkCompData f (forget c) k n).1 := by
+  unfold getChunkCompData
+  have hf : (forget c).err = c.err := rfl
+  have hk : chunkAt (forget c) k = chunkAt c k := rfl
+  have ho : dataOff (forget c) = dataOff c := rfl
+  rw [hf, hk, ho]
+  split
+  · rfl
+  · split
+    · split <;> rfl
+    · rfl
+
+/-- a stored-data request returns exactly the bytes at the chunk's extent (as many as the file has) -/
+theorem getChunkCompData_bytes (f : Bytes) (c : Ctx) (k n : Nat) (ch : Chunk)
+    (he : c.err = false) (hk : chunkAt c k = some ch) (hl : ch.len ≠ 0) :
+    (getChunkCompData f c k n).1.bytes = (f.drop (dataOff c + ch.start)).take n := by
+  unfold getChunkCompData
+  simp [he, hk, hl, fileRead]
+
 end Zck.C14
